@@ -7,6 +7,9 @@ from collections import Counter
 
 PKG = "vdr/didsubject"
 HARNESS = ["vdr/didsubject/zz_verif_c13_test.go"]
+WPKG = "vdr"
+WHARNESS = ["vdr/zz_verif_c13w_test.go"]
+HARNESSES = [(PKG, HARNESS, "c13"), (WPKG, WHARNESS, "c13w")]
 
 DID_RE = re.compile(r"\[(\w+):d(\d+) v=([\d,]*) top=(\S*) res=(\S+) pub=(\S+)\]")
 
@@ -24,8 +27,15 @@ def parse_line(line):
         dids = [(m.group(1), int(m.group(2)), [int(x) for x in m.group(3).split(",") if x], m.group(4), m.group(5), m.group(6))
                 for m in DID_RE.finditer(rest)]
         err = rest.split()[0] if rest.startswith("err:") else None
-        subjects[name] = {"dids": dids, "err": err}
-    return result, log, keys, subjects
+        svc = {}
+        m = re.search(r"svc=(\S*)", rest)
+        if m and m.group(1):
+            for item in m.group(1).split(";"):
+                lbl, _, owners = item.partition(":")
+                svc[lbl] = owners
+        subjects[name] = {"dids": dids, "err": err, "svc": svc}
+    lst = head[3].split("=", 1)[1] if len(head) > 3 and head[3].startswith("list=") else "ok"
+    return result, log, keys, subjects, lst
 
 
 def key_labels(obs):
@@ -42,7 +52,8 @@ def run(ctx):
     thms = ctx.build_and_audit(["NutsProofs.Props.C13"])
     required = ["fact_sweep_threshold", "fact_transaction_helper_shape", "fact_rollback_deletes_created_did",
                 "fact_nuts_not_found_is_uncommitted", "fact_web_commit_cannot_fail", "fact_version_is_latest_plus_one",
-                "fact_sweep_handles_whole_transaction", "fact_deactivation_renders_as_published", "old_iscommitted_blocks_sweep", "old_rollback_blocks_retry", "old_sweep_splits_transaction"]
+                "fact_sweep_handles_whole_transaction", "fact_deactivation_renders_as_published", "fact_rollback_loop_wiring", "fact_method_manager_wiring",
+                "fact_latest_is_highest_version", "old_iscommitted_blocks_sweep", "old_rollback_blocks_retry", "old_sweep_splits_transaction"]
     required += REQUIRED_DEEP
     for r in required:
         if not any(t.endswith("Props." + r) for t in thms):
@@ -67,6 +78,7 @@ def run(ctx):
         "SQL transactions are atomic and serialised; deleting a did / version row cascades as declared in 003_did.sql",
     ]
 
+    wiring_leg(ctx)
     binary = ctx.go_test_binary(PKG, HARNESS, "c13")
     if binary is None:
         ctx.oblige("harness-builds", False, ctx.harness_error[-1500:])
@@ -141,6 +153,12 @@ def run(ctx):
                         for d in s["dids"]:
                             if d[2] != list(range(len(d[2]))):
                                 report("C13:versions-not-consecutive", f"subject {sname} event {k}: {d[2]}", w)
+        # P2/P3: no panic; List / Exists agree with ListDIDs
+        for k, (op, o) in enumerate(zip(w["ops"], obs)):
+            if o[0].startswith("panic:"):
+                report("C13:panic", f"event {k} ({op.get('kind', op['op'])}) panicked: {o[0][:120]}", w)
+            if o[4] != "ok":
+                report("C13:list-exists-inconsistent", f"event {k}: {o[4]}", w)
         # documented assumption: no update is applied to a deactivated subject (didnuts skips the publication silently,
         # SQL and network differ from then on). Such worlds are still compared with the model, but not judged.
         off = False
@@ -152,6 +170,41 @@ def run(ctx):
         if off:
             stats["world:update-on-deactivated-subject(not judged)"] += 1
             continue
+        # P1: a successful operation is visible on EVERY DID of the subject (the "together" half), through Resolve and FindServices
+        for k, (op, o) in enumerate(zip(w["ops"], obs)):
+            if op["op"] != "do" or o[0] != "ok" or k == 0:
+                continue
+            sub = o[3].get(op["subj"], {"dids": [], "svc": {}})
+            prev = obs[k - 1][3].get(op["subj"], {"dids": [], "svc": {}})
+            labels = ",".join(sorted("d%d" % d[1] for d in sub["dids"]))
+            def svcs(d):
+                return [x for x in (d[3].split(";")[1] if ";" in d[3] else "").split(",") if x]
+            def nkeys(d):
+                return len(re.findall(r"k\d+", d[3]))
+            bad_eff = None
+            kd, a, b2 = op["kind"], op.get("a", ""), op.get("b", "")
+            if kd == "create":
+                if sorted(d[0] for d in sub["dids"]) != sorted(w["methods"]) or any(d[2] != [0] or d[4] != "ok" or nkeys(d) != 1 for d in sub["dids"]):
+                    bad_eff = f"create: {sub['dids']}"
+            elif not sub["dids"]:
+                bad_eff = f"{kd} ok but the subject has no DIDs"
+            elif kd == "addsvc" and (any(a not in svcs(d) for d in sub["dids"]) or sub["svc"].get(a) != labels):
+                bad_eff = f"addsvc {a}: tops {[d[3] for d in sub['dids']]} FindServices {sub['svc'].get(a)} DIDs {labels}"
+            elif kd == "delsvc" and (any(a in svcs(d) for d in sub["dids"]) or sub["svc"].get(a, "") != ""):
+                bad_eff = f"delsvc {a}: tops {[d[3] for d in sub['dids']]} FindServices {sub['svc'].get(a)}"
+            elif kd == "updsvc" and (any(b2 not in svcs(d) or (a != b2 and a in svcs(d)) for d in sub["dids"]) or sub["svc"].get(b2) != labels):
+                bad_eff = f"updsvc {a}->{b2}: tops {[d[3] for d in sub['dids']]} FindServices {sub['svc'].get(b2)}"
+            elif kd == "addkey":
+                before = {d[1]: nkeys(d) for d in prev["dids"]}
+                if any(nkeys(d) != before.get(d[1], -9) + 1 for d in sub["dids"]):
+                    bad_eff = f"addkey: keys before {before} after {[(d[1], nkeys(d)) for d in sub['dids']]}"
+            elif kd == "deact" and any(d[4] != "deact" for d in sub["dids"]):
+                bad_eff = f"deact: {[(d[1], d[4]) for d in sub['dids']]}"
+            if bad_eff:
+                report("C13:successful-operation-not-visible-on-every-did", f"event {k}: {bad_eff}", w)
+            # P4: a completed operation leaves no change record of its own behind
+            if kind in ("plain", "quiet") and o[1] != obs[k - 1][1]:
+                report("C13:change-records-left-by-completed-operation", f"event {k} ({kd}): {obs[k - 1][1]} change records before, {o[1]} after", w)
         if kind == "plain":
             last = obs[-1]
             if last[1] != 0:
@@ -250,6 +303,58 @@ def run(ctx):
                        "distinct_nontrivial = distinct worlds (event lists without map order)")
     ctx.cov["input_distribution"] = dict(sorted(stats.items()))
     ctx.cov["samples"] = [json.dumps(worlds[1]["ops"][:4])[:400] if len(worlds) > 1 else "", impl[worlds[1]["start"] + 2][:300] if len(worlds) > 1 else ""]
+
+
+def wiring_leg(ctx):
+    """full-stack leg: real vdr.Module (NewVDR/Configure/Start), real network + ambassador + didstore; every cut of create/addsvc/addkey/deact,
+    sweep through Module.rollbackLoop. Oracle on the implementation's outputs only."""
+    if ctx.replay:
+        return
+    wb = ctx.go_test_binary(WPKG, WHARNESS, "c13w")
+    if wb is None:
+        ctx.oblige("wiring-harness-builds", False, ctx.harness_error[-1200:])
+        return
+    ctx.oblige("wiring-harness-builds", True)
+    rc, log, out = ctx.run_harness(wb, "TestVerifC13W", {}, outdir=os.path.join(ctx.scratch, "outw"), timeout=600)
+    if rc != 0:
+        ctx.oblige("wiring-harness-runs", False, log[-1200:])
+        return
+    ctx.oblige("wiring-harness-runs", True)
+    lines = [json.loads(l) for l in ctx.read_lines(os.path.join(out, "wiring.jsonl")) if l.strip()]
+    bad = []
+
+    def strip_m(states):
+        return sorted(states)
+
+    for d in lines:
+        what = []
+        if d["wiring"] != "nuts:*vdr.c13wDeco,web:*vdr.c13wDeco" and d["wiring"] != "nuts:*didnuts.Manager,web:*didweb.Manager":
+            what.append(f"method managers wired as {d['wiring']}")
+        if not d["stopped"]:
+            what.append("the stop did not fire")
+        if not d["loop_swept"] or d["log_after"] != 0:
+            what.append(f"Module.rollbackLoop did not clear the change log at start-up ({d['log_before']} -> {d['log_after']}) {d['retry'] if d['retry'].startswith('loop') else ''}")
+        published = "nuts" in d["order"][:d["k"]]
+        want = d["stop"] if published else d["before"]
+        if strip_m(d["after"]) != strip_m(want):
+            what.append(f"after the sweep {d['after']} but expected {'the new version (published by every method)' if published else 'the previous state'} {want}")
+        parsed = [re.match(r"^(\w+) v=\[([\d ]*)\] (.*)$", x) for x in d["after"] if x != "nosubject"]
+        vs = {m.group(2) for m in parsed if m}
+        if len(vs) > 1:
+            what.append(f"DIDs of the subject at different versions after the sweep: {d['after']}")
+        nuts_sql = [m.group(3) for m in parsed if m and m.group(1) == "nuts"]
+        if nuts_sql and d["nuts_net"] != nuts_sql[0]:
+            what.append(f"did:nuts on the network shows {d['nuts_net']}, SQL shows {nuts_sql[0]}")
+        if not published and d["retry"] != "ok":
+            what.append(f"retry after the rolled-back attempt: {d['retry']}")
+        if what:
+            bad.append((d, what))
+    ctx.oblige("oracle:wiring-leg(full stack, sweep through Module.rollbackLoop)", not bad, f"{len(bad)} of {len(lines)} scenarios: " + "; ".join(w for _, ws in bad[:2] for w in ws)[:600])
+    for d, what in bad[:1]:
+        ctx.violation("C13:wiring:" + re.sub(r"[^a-z]+", "-", what[0].lower())[:60], f"{d['kind']} stop k={d['k']} order {d['order']}: " + "; ".join(what),
+                      "wiring.jsonl", json.dumps(d) + "\n# full-stack scenario of harness/inpkg/vdr/zz_verif_c13w_test.go: operation kind, stop before Commit call k (k = #methods: before the clean-up transaction); "
+                      "the leg is deterministic: ./check C13 re-runs it\n")
+    ctx.cov["wiring_leg_scenarios"] = len(lines)
 
 
 REQUIRED_DEEP = ["uniform_versions", "versions_consecutive", "versions_consecutive_monotone", "subject_unique", "all_or_nothing",
